@@ -39,7 +39,13 @@ func flipBit(b []byte, bit int) []byte {
 
 // NewGen creates the universe and opens the store.
 func NewGen(r *hx.Rand, kind string, capacity uint64, disk bool) (*Gen, error) {
-	base := r.Bytes(32)
+	// address length: mostly 4 bytes (keeps the Coq terms small; localstore does not
+	// care), every eighth history full 32-byte addresses
+	alen := 4
+	if r.Chance(1, 8) {
+		alen = 32
+	}
+	base := r.Bytes(alen)
 	n := 6 + r.Intn(3)
 	univ := []string{}
 	have := map[string]bool{}
@@ -56,7 +62,7 @@ func NewGen(r *hx.Rand, kind string, capacity uint64, disk bool) (*Gen, error) {
 			// same bin for several addresses: flip one of three bit positions of the base key, random tail
 			p := pos[r.Intn(3)]
 			a = flipBit(base, p)
-			for k := p/8 + 1; k < 32; k++ {
+			for k := p/8 + 1; k < alen; k++ {
 				a[k] = byte(r.U64())
 			}
 		}
